@@ -30,6 +30,7 @@ func init() {
 		Explanation: "Decides structural necessary conditions of convergence, on every path and for every schedule: (1) in the cache, content, version and the event's update flag change together, and an initial load stores content, version 0 and the loaded state only under the not-loaded test of that same entry (PAIR/version-bump); every event is stamped with the pre-update version, applied by its handler, fanned out inside the unlock window and dropped only by the listed discards (CONF/handle-event); (2) cache content and version are written only by cache tasks under the entry's mutex and read under it (CTX/guarded-by); (3) the subscriber applies an event only when it targets its version and advances by one per update (DOM/version-filter); (4) events are processed only with the event gate known open, discarded before load, and reaccess dispatched first (DOM/event-gate); (5) queues are updated in order-preserving forms (FIFO); (6) all mutable subscription state is touched on the connection worker only (CTX/conn); (7) a resource made sendable again must carry a current snapshot (PAIR/snapshot-current: known finding F13); cached model and collection values are never written in place: every container write in the repository is traced to its origin and none originates from Collection.Values / Model.Values (DOM/copy-on-write); a fanned-out ResourceEvent is read-only, no field of it — also one added later — is stored by subscriber-side code (WHO/event-immutable). Not decided: end-to-end equality of the client copy with the service state, Value.Equal, the reset diff (C12), the collector (C02), JSON encodings, legacy-encoding selection.",
 		Assumptions: append([]string{"at most one cache worker runs a resource queue at a time (FIFO/CHAN rules) and one output worker per connection (CTX/conn)"}, baseAssumptions...),
 		Rules: []Rule{
+			{Name: "LIN/queue-detach", Min: 1, Run: ruleQueueDetach, Doc: "queued events taken off the subscription are processed or re-queued on every path"},
 			{Name: "WHO/event-immutable", Min: 5, Run: ruleEventImmutable, Doc: "a fanned-out event is read-only: no subscriber-side store into the shared ResourceEvent"},
 			{Name: "PAIR/version-bump", Min: 2, Run: ruleVersionBump, Doc: "content, version and update flag change together; initial load guarded"},
 			{Name: "CONF/handle-event", Min: 1, Run: ruleHandleEvent, Doc: "handleEvent conformance: stamp, apply, fan out; listed discards only"},
@@ -59,6 +60,7 @@ func init() {
 		Explanation: "Decides: the typestate table of Subscription.state (who may move a subscription into which state); populate → hand the frame over → release on every path (PAIR/rpc-resources); the shapes the collector relies on: ReleaseRPCResources marks sent, descends into every reference and then opens the loading gate; populateResources* count an edge once, skip sent resources and mark ToSend before descending; removeCount's counter effects follow its direct/sent/tryDelete arguments; every disposed subscription leaves the connection's table (DOM/ref-shapes); references are released with the parent's sent-ness as it was while the edge was counted (PROV/sent-flag: known finding F6); the sent-count is raised once per created edge (PAIR/edge-sent-once: known finding F8); a re-sendable resource has a current snapshot and a closed gate (PAIR/snapshot-current: known finding F13); no change on a collection, no add/remove on a model, decoded indexes inside [0,len] (DOM/index-kind-guard); no event before the hand-over (DOM/event-gate); recursion census. NOT decided — and this is the core of the property: correctness of the two-pass reference-count collector tryDelete/Unsend and of the indirectsent arithmetic on arbitrary reference graphs.",
 		Assumptions: baseAssumptions,
 		Rules: []Rule{
+			{Name: "PAIR/sent-with-frame", Min: 2, Run: ruleSentWithFrame, Doc: "an edge is counted as sent in the task that writes its frame, not before a wait"},
 			{Name: "TYPESTATE/sub-state", Min: 5, Run: ruleStateTable("server.Subscription.state", subStateNames, subStateTable), Doc: "who may move a subscription into which state"},
 			{Name: "PAIR/rpc-resources", Min: 2, Run: ruleRPCResources, Doc: "populate, send, release"},
 			{Name: "DOM/ref-shapes", Min: 2, Run: ruleRefShapes, Doc: "ReleaseRPCResources / populateResources / removeCount / tryDelete shapes"},
@@ -82,6 +84,8 @@ func init() {
 		Explanation: "Decides: the five queues are updated only in order-preserving forms, including the re-queue of not-yet-processed events before newer ones (FIFO/queues); a worker is woken only on the empty→non-empty transition of a resource queue and never while locks are set (DOM/inch-send), so one worker at a time runs a queue; handleEvent stamps, applies and fans out inside one unlock window with no go statement (CONF/handle-event); Subscriber.Event only enqueues and the continuation of every handler runs on the connection worker (CTX/conn); an applied update advances cache and subscriber versions by exactly one and a stamped event is applied only at its version, hence at most once (PAIR/version-bump, DOM/version-filter); nothing is processed before the hand-over or while the gate is closed, with the in-loop re-test (DOM/event-gate); the bookkeeping of a callback slot (in-flight flag, cached verdict, the slot itself) is finished before the slot's continuations run, so a re-access started from inside a callback is not lost (DOM/drain-reentrancy). Not decided: the capacity countdown of the lock list, delivery by the socket, the 'equivalent derived sequence' exception (C12).",
 		Assumptions: baseAssumptions,
 		Rules: []Rule{
+			{Name: "LIN/queue-detach", Min: 1, Run: ruleQueueDetach, Doc: "queued events taken off the subscription are processed or re-queued on every path"},
+			{Name: "WHO/event-immutable", Min: 5, Run: ruleEventImmutable, Doc: "a per-subscriber frame cached in the shared event delivers one subscriber's event to another (duplicate plus gap)"},
 			{Name: "DOM/drain-reentrancy", Min: 2, Run: ruleDrainReentrancy, Doc: "slot bookkeeping finished before the slot's continuations run (they may re-enter)"},
 			{Name: "FIFO/queues", Min: 7, Run: ruleFIFO(allQueues...), Doc: "queue update forms"},
 			{Name: "DOM/inch-send", Min: 1, Run: ruleInChSend, Doc: "worker woken only on the empty→non-empty transition"},
@@ -100,6 +104,7 @@ func init() {
 		Explanation: "Decides: every data hand-out (GetRPCResources(false), a loaded subscription handed to the HTTP encoder) lies on a continuation path behind a get grant and not behind a direct-response meta status (DOM/gates); Access.CanGet grants only for no error ∧ get == true and tests the error first (TABLE/access); Cache.Access turns request and decode errors into Access.Error (LIN on its body); a denied request releases its direct subscription (PAIR/direct-count); the verdict is cached only for a result or system.accessDenied, by a live subscription (DOM/verdict-store) and cleared on every trigger before it can be reused (DOM/invalidate); the access request carries the token as the connection holds it when the request is sent (PROV/token-cid) and a reaccess event always reaches the subscribers (CONF/handle-event). Not decided: whether an access answer that was in flight when a trigger arrived is still valid (a runtime relation).",
 		Assumptions: baseAssumptions,
 		Rules: []Rule{
+			{Name: "DOM/reset-protocol", Min: 1, Run: ruleResetProtocol, Doc: "a system reset with a matching access pattern reaches every subscriber, whatever the state of the resource"},
 			{Name: "PROV/token-cid", Min: 5, Run: ruleTokenCID, Doc: "the access request carries the connection's token as it is when the request is sent"},
 			{Name: "CONF/handle-event", Min: 1, Run: ruleHandleEvent, Doc: "a reaccess event always reaches the subscribers (it invalidates the grant)"},
 			{Name: "DOM/gates", Min: 2, Run: ruleGates, Doc: "data hand-out only after the get grant on the same path"},
@@ -119,6 +124,7 @@ func init() {
 		Explanation: "Decides: both sites of Cache.Call lie behind a call grant on the same continuation path, for the very action value that was checked, and not behind a direct-response status (DOM/gates); CanCall grants only through call == \"*\" or an exact list entry, error first, never for an empty list (TABLE/access); at all 8 request sites the token argument is the connection's token read in the requesting task and the requester is that same connection; the payload builders use the requester's CID() and the given token (PROV/token-cid); token/tid are written only by setToken and every token change re-checks every subscription of the connection, unconditionally (DOM/token-fanout); the cached verdict is cleared on every trigger and before loadAccess can short-circuit on it (DOM/invalidate); the token is read on the connection worker only (CTX/conn: known finding F11 — the throttled re-access reads it on a fresh goroutine); a reaccess event always reaches the subscribers of the resource, also while it is being reset (CONF/handle-event). Not decided: the CanCall list scanner for all strings; validity of an access answer in flight at trigger time.",
 		Assumptions: baseAssumptions,
 		Rules: []Rule{
+			{Name: "DOM/reset-protocol", Min: 1, Run: ruleResetProtocol, Doc: "a system reset with a matching access pattern reaches every subscriber, whatever the state of the resource"},
 			{Name: "CONF/handle-event", Min: 1, Run: ruleHandleEvent, Doc: "a reaccess event always reaches the subscribers (it invalidates the grant)"},
 			{Name: "DOM/gates", Min: 2, Run: ruleGates, Doc: "call forwarded only after the matching grant, with the checked action"},
 			{Name: "TABLE/access", Min: 1, Run: ruleAccessTables, Doc: "decision list of CanCall"},
@@ -218,6 +224,7 @@ func init() {
 		Explanation: "Decides: wsConn.dispose sets the flag and closes the worker channel in one critical section, removes the connection from the cache and from token-reset fan-out, unsubscribes the connection events, disposes every subscription, and leaves the registry (DOM/dispose); Subscription.Dispose releases references and exactly one cache use; Enqueue/Subscribe/Unsubscribe refuse a disposing connection; a late Loaded releases the cache use (PAIR/loaded-handover); late access answers are absorbed (DOM/verdict-store); no call/auth request is issued by a continuation of a disposed connection (CTX/post-dispose); a refused task never strands a throttle slot of other connections (PAIR/throttle-slot); temporary HTTP connections are disposed exactly once on every exit (LIN/temp-conn); sends on the worker channel cannot hit the close (CHAN); teardown takes the connection and cache mutexes in an order that cannot deadlock against the token-reset fan-out (LOCK/order). Not decided: 'no effect on other connections' as a runtime fact beyond the pairing rules of C09.",
 		Assumptions: baseAssumptions,
 		Rules: []Rule{
+			{Name: "FIFO/queues", Min: 1, Run: ruleFIFO("rescache.Throttle.queue"), Doc: "a disposed subscription drops no request waiting in the shared throttle (the cache entry it already counted a use on would never be released)"},
 			{Name: "LOCK/order", Min: 2, Run: ruleLockOrder, Doc: "teardown cannot deadlock against the token-reset fan-out: lock order acyclic"},
 			{Name: "DOM/dispose", Min: 3, Run: ruleDispose, Doc: "dispose set; refusal after close; Subscription.Dispose"},
 			{Name: "CTX/post-dispose", Min: 1, Run: rulePostDispose, Doc: "no request from a continuation of a disposed connection"},
@@ -265,6 +272,7 @@ func init() {
 		Explanation: "Decides: at all 10 publish/subscribe sites the subject is assembled only from literal prefixes and values whose every provenance leaf (backward over the whole program: parameters through the call graph, fields through all their stores, decoders) is validated by IsValidRID/IsValidRIDPart on the path to its use, trusted (xid, constants) or one of the two service-addressed subjects; the query part of a resource id never reaches a subject (PROV/subject); the recognisers reject control characters, space, DEL, non-ASCII, '*', '>' (and '.', '?' for parts) on every path of a scan step (TABLE/reject-set, constant propagation per character); every subject is validated hence invalid input reaches no service request. Not decided: the recognisers on whole strings (token structure), PathToRID decoding of every byte string.",
 		Assumptions: baseAssumptions,
 		Rules: []Rule{
+			{Name: "PROV/cid-taint", Min: 7, Run: ruleCIDTaint, Doc: "every {cid} tag of the resource name is expanded before it reaches a subject"},
 			{Name: "PROV/subject", Min: 5, Run: ruleSubjectProv, Doc: "subjects built from validated parts"},
 			{Name: "TABLE/reject-set", Min: 1, Run: ruleRejectSet(rejectSpecs()), Doc: "recognisers reject the excluded characters"},
 			{Name: "DOM/path-prefix", Min: 2, Run: rulePathPrefix, Doc: "HTTP path cut by the api prefix only after the prefix test"},
@@ -337,6 +345,7 @@ func init() {
 		Explanation: "Decides: running++ only below the limit under the throttle mutex, Done on every non-panic path either decrements or hands the slot to the head of the queue, FIFO (DOM/throttle, FIFO/queues) — so running <= limit is inductive and no slot is lost; each governed closure calls Done exactly once on every continuation path and outside any task the connection may refuse (PAIR/throttle-slot); no zero-limit throttle is created (DOM/limit-positive); throttled and unthrottled twins agree (covered by the same path rules on both); a subscription keeps the throttle of the tree it was loaded in until it is disposed or its loading failed (WHO/throttle). Not decided: the number of outstanding requests as a runtime quantity; global progress under arbitrary answer orders beyond 'every completion frees or hands over exactly one slot'.",
 		Assumptions: append([]string{"C18: each governed request completes"}, baseAssumptions...),
 		Rules: []Rule{
+			{Name: "DOM/invalidate", Min: 1, Run: ruleInvalidate, Doc: "a check deferred because the subscription was busy sends its own request: the verdict is cleared before loadAccess can answer from it"},
 			{Name: "PAIR/throttle-slot", Min: 1, Run: rulePairThrottle, Doc: "exactly one Done per governed request"},
 			{Name: "DOM/throttle", Min: 1, Run: ruleThrottle, Doc: "Add/Done invariant; positive limit at both creation sites"},
 			{Name: "FIFO/queues", Min: 1, Run: ruleFIFO("rescache.Throttle.queue"), Doc: "waiting closures started in order"},
